@@ -176,12 +176,13 @@ class Batch:
         eff = [c if cfg_override is None else dict(c, cfg=dict(c['cfg'], **cfg_override)) for c in cases]
         mres = self.ctx.model.run_many([mapcase.w_case('mat', c) for c in eff])
         sres = self.ctx.model.run_many([mapcase.w_case('spec', c) for c in eff]) if want_spec else [None] * len(cases)
-        # inside the domain of the end-to-end theorem (Props/C01.v engine_document_is_generation_rules_document; decided by the extracted
-        # predicate Model/Fragment.v theorem_applies) the Engine model and the Spec are PROVED equal on completed runs
+        # inside the domain of the end-to-end theorems (Props/C01.v engine_document_is_generation_rules_document and
+        # engine_document_with_joins_is_generation_rules_document; decided by the extracted predicates Model/Fragment.v theorem_applies / theorem_applies_joins) the Engine model and the Spec are PROVED equal on completed runs
         ares = self.ctx.model.run_many([['applies', mapcase.w_cfg(c['cfg']), mapcase.w_doc(c)] for c in eff]) if want_spec else [None] * len(cases)
         out = []
         for c, i, m, s, a in zip(eff, ires, mres, sres, ares):
-            dom = bool(a) and a[0] == 'ok' and a[1] == 'true' and all(x.get('kind', 'csv') == 'csv' for x in c['sources']) and not c.get('execs') and not c.get('file_path_option')
+            dom = (bool(a) and a[0] == 'ok' and a[1] == 'true' and all(x.get('kind', 'csv') == 'csv' for x in c['sources']) and not c.get('execs') and not c.get('file_path_option')
+                   and not any(str(col).startswith('parent_') for x in c['sources'] for col in x['cols']))      # hypothesis of the join theorem: no data column named parent_*
             out.append({'case': c, 'impl': impl_outcome(i), 'model': model_outcome(m),
                         'spec': model_outcome(s) if s is not None else None, 'in_domain': dom})
         return out
